@@ -2,7 +2,9 @@ package verifnet
 
 import (
 	"fmt"
+	"slices"
 
+	"github.com/internetarchive/Zeno/internal/pkg/veriflib"
 	"pgregory.net/rapid"
 )
 
@@ -34,7 +36,10 @@ type Mix struct {
 	SharedPool  int  // number of shared bodies (identical payloads under several URLs)
 	AllowEOF    bool // connection-close framing
 	DedupeTotal int  // dedupe threshold of the lifecycle (whole-message bytes), for the boundary class
-	NoPenalty   bool // real rate limiter on: no 403/408/429 (each costs the host a 5..30 s penalty in real time)
+	// KeepRejectedWhole: no truncated body on a response the discard policy rejects (open finding of C16)
+	KeepRejectedWhole bool
+	Discard           []int // --warc-discard-status of the lifecycle
+	NoPenalty         bool  // real rate limiter on: no 403/408/429 (each costs the host a 5..30 s penalty in real time)
 }
 
 type siteGen struct {
@@ -184,6 +189,10 @@ func (g *siteGen) leaf() string {
 		if g.mix.NoPenalty && r.FailStatus == 429 {
 			r.FailStatus = 502
 		}
+	}
+	if r.Fault == "truncate" && g.mix.KeepRejectedWhole && (r.CFHeader != "" || slices.Contains(g.mix.Discard, r.Status)) {
+		r.Fault = ""
+		veriflib.Excluded("C16/net", "no truncated body on a response the discard policy rejects (open finding C16-discarded-truncated-response-leaks-spool-file)")
 	}
 	g.site[ref] = r
 	return ref
